@@ -19,9 +19,9 @@ import (
 
 // Profile is the network part of a run's fault profile.
 type Profile struct {
-	LatencyMs   int  // base one-way latency
-	JitterMs    int  // extra 0..JitterMs per segment, by decision
-	ChunkMax    int  // 0 = deliver whole segments; else max bytes per delivery, size by decision
+	LatencyMs   int            // base one-way latency
+	JitterMs    int            // extra 0..JitterMs per segment, by decision
+	ChunkMax    int            // 0 = deliver whole segments; else max bytes per delivery, size by decision
 	ConnLatency map[string]int // extra one-way latency in ms per "client->server" host name
 }
 
@@ -31,8 +31,8 @@ type Net struct {
 	Prof      Profile
 	mu        sync.Mutex
 	listeners map[string]*Listener // "host:port"
-	hosts     map[string]net.IP   // hostname -> IP
-	Zone      map[string][]net.IP // resolver answers for names (LookupIP)
+	hosts     map[string]net.IP    // hostname -> IP
+	Zone      map[string][]net.IP  // resolver answers for names (LookupIP)
 	ZoneFail  map[string]bool
 	conns     []*Conn
 	nextPort  int
@@ -91,14 +91,14 @@ type segment struct {
 // half is one direction of a connection: bytes written by the peer, to be
 // read by the owner.
 type half struct {
-	mu       sync.Mutex
-	cond     *sync.Cond
-	inflight []segment
-	rx       []byte
-	eof      bool
-	reset    bool
-	deadline time.Time
-	dlTimer  *time.Timer
+	mu           sync.Mutex
+	cond         *sync.Cond
+	inflight     []segment
+	rx           []byte
+	eof          bool
+	reset        bool
+	deadline     time.Time
+	dlTimer      *time.Timer
 	stalledUntil time.Time
 }
 
@@ -309,13 +309,13 @@ func (c *Conn) SetWriteDeadline(t time.Time) error { return nil }
 
 // Listener is a simulated listening socket.
 type Listener struct {
-	net    *Net
-	addr   *net.TCPAddr
-	key    string
-	mu     sync.Mutex
-	cond   *sync.Cond
-	queue  []*Conn
-	closed bool
+	net      *Net
+	addr     *net.TCPAddr
+	key      string
+	mu       sync.Mutex
+	cond     *sync.Cond
+	queue    []*Conn
+	closed   bool
 	Accepted int
 }
 
